@@ -12,7 +12,8 @@ C18, builder half: WHERE an error is raised.  The `innermost` half of the proper
                     `seen[idx]` check refuses a field (`fail!(in self, "Duplicate field")` inside the field loop)
   `Sub c x`         the call `c` is issued (to some builder) while `x` is serialized: `x` itself, the calls of its parts,
                     and the calls the builders synthesise (`serialize_unit` for a unit variant, the tuple / struct calls
-                    of a variant's payload, one `u8` per byte of `serialize_bytes` on a list)
+                    of a variant's payload, one `u8` per byte of `serialize_bytes` on a list, the `serialize_str` a
+                    dictionary builder issues to its value builder and the `serialize_u64` it issues to its key builder)
   `Placeholder c`   `serialize_none` / `serialize_default` (issued to the builders a value does not fill)
   `Raised ext S C r`  if `r` is an annotated error, its annotation is the own annotation of a builder state `b'` whose
                     subtree lies in `S`, and `OwnFails ext b' c msg` for a call `c` with `C c`
@@ -277,7 +278,12 @@ inductive Sub : Call → SVal → Prop
   /-- … `serialize_struct_start` + fields + `end` -/
   | structVariant {c n i vn fs} : Sub c (.record vn fs) → Sub c (.structVariant n i vn fs)
   /-- `ListBuilder::serialize_bytes`: one `serialize_u8` per byte -/
-  | byte {bs : List UInt8} {x : UInt8} : x ∈ bs → Sub (.val (.int .u8 x.toNat)) (.bytes bs)
+  | byte {c} {bs : List UInt8} {x : UInt8} : x ∈ bs → Sub c (.int .u8 x.toNat) → Sub c (.bytes bs)
+  /-- `DictionaryUtf8Builder::serialize_str` (reached by every scalar with a string form — `v.to_string()`, a unit
+  variant's name; `ext` is the external float formatter): `self.values.serialize_str(s)` to the VALUE builder … -/
+  | dictValue {c x s} (ext : Ext) : scalarToString ext x = some s → Sub c (.str s) → Sub c x
+  /-- … and `idx.serialize(Mut(self.indices))`, a `serialize_u64`, to the KEY builder -/
+  | dictKey {c x} (ext : Ext) (i : Int) : (scalarToString ext x).isSome = true → Sub c (.int .u64 i) → Sub c x
 inductive SubL : Call → SVals → Prop
   | head {c x r} : Sub c x → SubL c (.cons x r)
   | tail {c x r} : SubL c r → SubL c (.cons x r)
